@@ -361,7 +361,43 @@ def _decode_any(fmt, text):
     raise KeyError(fmt)
 
 
+def _api_list_then_transform(src, dest):
+    """API history: read ALL trees first, transform them last-to-first with node-creating transformations,
+    then write them in file order."""
+    import io as _io
+    from trees import treeinput, treeoutput, transform
+    trees_ = list(treeinput.export(src, 'utf-8', quiet=True))
+    done = {}
+    for i in reversed(range(len(trees_))):
+        t = trees_[i]
+        for name in ('root_attach', 'negra_mark_heads', 'boyd_split', 'add_topnode'):
+            t = getattr(transform, name)(t)
+        done[i] = t
+    with _io.open(dest, 'w', encoding='utf-8') as f:
+        for i in range(len(trees_)):
+            treeoutput.export(done[i], f)
+
+
+def _api_interleaved_readers(src, dest):
+    """API history: two readers over the same file advance alternately; trees of the second reader are
+    transformed while trees of the first are still alive; the first reader's trees are written."""
+    import io as _io
+    from trees import treeinput, treeoutput, transform
+    r1 = treeinput.export(src, 'utf-8', quiet=True)
+    r2 = treeinput.export(src, 'utf-8', quiet=True)
+    kept = []
+    for t1 in r1:
+        t2 = next(r2)
+        transform.add_topnode(transform.boyd_split(transform.negra_mark_heads(transform.root_attach(t2))))
+        kept.append(transform.add_topnode(transform.boyd_split(transform.negra_mark_heads(transform.root_attach(t1)))))
+    with _io.open(dest, 'w', encoding='utf-8') as f:
+        for t in kept:
+            treeoutput.export(t, f, boyd_split_numbering=True)
+
+
 CONCAT_OPS = [
+    ('export', _api_list_then_transform, 'export', 'dest'),
+    ('export', _api_interleaved_readers, 'export', 'dest'),
     ('export', ['transform', '{src}', '{dest}'], 'export', 'dest'),
     ('export', ['transform', '{src}', '{dest}', '--dest-format', 'tigerxml', '--trans', 'root_attach', 'negra_mark_heads',
                 'boyd_split', 'raising'], 'tigerxml', 'dest'),
@@ -390,9 +426,13 @@ def _run_concat(cli, wd, fmt, argv, mts, out_name):
     with open(src, 'w', encoding='utf-8') as f:
         f.write(codecs.encode_export(mts) if fmt == 'export' else codecs.encode_brackets(mts))
     dest = os.path.join(d, 'dest')
-    st, so, se, exc = cli.run([a.format(src=src, dest=dest) for a in argv])
-    if st != 0:
-        raise RuntimeError('exit status %r %s' % (st, exc))
+    if callable(argv):
+        argv(src, dest)
+        st, so = 0, ''
+    else:
+        st, so, se, exc = cli.run([a.format(src=src, dest=dest) for a in argv])
+        if st != 0:
+            raise RuntimeError('exit status %r %s' % (st, exc))
     if out_name is None:
         text = so
     else:
@@ -445,19 +485,25 @@ def check_concat(op_i, ia, ib):
         cli = fresh_import()
         rab = _interpret(kind, _run_concat(cli, wd, fmt, argv, A + B, out_name))
     except Exception as e:
-        return [{'kind': 'exception', 'where': ' '.join(argv[:4]), 'case': case,
+        return [{'kind': 'exception', 'where': _opname(argv), 'case': case,
                  'detail': '%s: %s' % (type(e).__name__, e), 'what': 'concatenation check raised'}]
     if kind == 'brackets-noid' or isinstance(ra, list):
         ok = rab == ra + rb
     else:
         ok = rab == ra + rb
     if not ok:
-        return [{'kind': 'not-sentence-local', 'where': ' '.join(a for a in argv if not a.startswith('{'))[:80], 'case': case,
+        return [{'kind': 'not-sentence-local', 'where': _opname(argv), 'case': case,
                  'detail': 'result for A+B differs from result(A) (+) result(B): A=%s B=%s; A+B gives %r, parts give %r and %r'
                            % ([model.mt_str(m.root) for m in A], [model.mt_str(m.root) for m in B],
                               _short(rab), _short(ra), _short(rb)),
                  'what': 'processing the concatenation of two treebanks differs from processing them separately'}]
     return []
+
+
+def _opname(argv):
+    if callable(argv):
+        return argv.__name__
+    return ' '.join(a for a in argv if not a.startswith('{'))[:80]
 
 
 def _short(x):
@@ -568,7 +614,7 @@ def run_chunk(chunk):
                 res.outcome((chunk['op'], ia, ib, len(vs)))
                 for v in vs:
                     res.violation(v['kind'], v['where'], v['case'], v['detail'], v['what'])
-        res.sample({'concatenation': ' '.join(CONCAT_OPS[chunk['op']][1]), 'pairs': n * n})
+        res.sample({'concatenation': _opname(CONCAT_OPS[chunk['op']][1]), 'pairs': n * n})
     else:
         for name in chunk['ops']:
             vs = check_determinism(name, chunk['seeds'])
